@@ -184,16 +184,16 @@ def ops_script(ops):
 
 SEM_ASSUME = ['Boolean models; constraints purely propositional over feature names',
               'exact counts are brute force over all 2^n selections, n <= family bound']
-prop('C13', ['Tree', 'TreeCtc'], naming_matters=False, assumptions=SEM_ASSUME)(ops_script(['estimate']))
-prop('C14', ['Tree', 'TreeCtc'], naming_matters=False, assumptions=SEM_ASSUME)(ops_script(['core']))
-prop('C15', ['Tree', 'TreeCtc'], naming_matters=False, assumptions=SEM_ASSUME)(ops_script(['atomic']))
-prop('C16', ['Tree', 'DecorAbs'], naming_matters=False,
+prop('C13', ['Tree', 'TreeStar', 'TreeCtc'], naming_matters=False, assumptions=SEM_ASSUME)(ops_script(['estimate']))
+prop('C14', ['Tree', 'TreeStar', 'TreeCtc'], naming_matters=False, assumptions=SEM_ASSUME)(ops_script(['core']))
+prop('C15', ['Tree', 'TreeStar', 'TreeCtc'], naming_matters=False, assumptions=SEM_ASSUME)(ops_script(['atomic']))
+prop('C16', ['Tree', 'TreeStar', 'DecorAbs'], naming_matters=False,
      assumptions=['corpus models above the TLC size bound are judged on scalar summaries only'])(
     ops_script(['leaves', 'count_leaves', 'depth', 'abf', 'varpoints', 'ancestors']))
 
 
 # ---------------------------------------------------------------------------
-@prop('C18', ['Ast', 'AstDeep'], naming_matters=False,
+@prop('C18', ['Ast', 'AstDeep'], name_classes=('casepair',), naming_matters=True, name_stride={'quick': 8, 'thorough': 2},
       assumptions=['equivalence is decided by complete truth tables over the atoms of the tree'])
 def script_c18(case, naming, tier, seed):
     from flamapy.core.models.ast import AST
@@ -218,7 +218,7 @@ METRIC_METHODS = [
     'extra_constraint_representativeness']
 
 
-@prop('C17', ['Tree', 'DecorAbs', 'TreeCtc'], naming_matters=False,
+@prop('C17', ['Tree', 'DecorAbs', 'TreeCtc'], name_classes=('substr',), naming_matters=True, name_stride={'quick': 5, 'thorough': 2},
       assumptions=['constraint listings are compared with the per-constraint predicates of the model (judged by C18)'])
 def script_c17(case, naming, tier, seed):
     b, ev = load_event(case, naming)
@@ -251,7 +251,9 @@ POOL_PICKS = [
     lambda t, m: len(m['rels']) == 4 and all(len(r['kids']) == 1 for r in m['rels'])
     and len({r['owner'] for r in m['rels']}) == 4 and 'optional' in t and 'mandatory' in t,
     lambda t, m: 'attr' in t and len(m['feats']) == 3 and sum(1 for f in m['feats'] if f['attrs']) == 1
-    and 'optional' in t,
+    and 'optional' in t and any(a['val'] == 'i:7' for f in m['feats'] for a in f['attrs']),
+    lambda t, m: 'attr' in t and len(m['feats']) == 3 and sum(1 for f in m['feats'] if f['attrs']) == 2
+    and any(a['val'] == 'n' for f in m['feats'] for a in f['attrs']),     # an attribute whose value is None
 ]
 
 
@@ -339,7 +341,7 @@ def script_c19(case, naming, tier, seed):
 
 
 # ---------------------------------------------------------------------------
-@prop('C20', ['Eq', 'Eq2'], name_classes=('plain', 'afmword', 'space'), naming_matters=True,
+@prop('C20', ['Eq', 'Eq2', 'Eq3'], name_classes=('plain', 'afmword', 'space'), naming_matters=True,
       assumptions=['names never differ only in letter case (the one situation where the statement allows either answer)',
                    'features carry no attributes in this family; equality ignores them'])
 def script_c20(case, naming, tier, seed):
@@ -466,7 +468,7 @@ def prepare_c12(cases, tier, seed):
     return res
 
 
-@prop('C12', ['C12-Tree', 'C12-Ctc', 'C12-Attr'], name_classes=('nonascii', 'space'), naming_matters=True,
+@prop('C12', ['C12-Tree', 'C12-Ctc', 'C12-Ctc2', 'C12-Attr'], name_classes=('nonascii', 'space'), naming_matters=True,
       name_stride={'quick': 2, 'thorough': 1}, prepare=prepare_c12,
       assumptions=['the environment matrix (hash seeds x locale x PYTHONUTF8) is sampled, not exhaustive',
                    'purity is judged on the projected object graph'])
@@ -498,11 +500,11 @@ def export_script(langs):
     return script
 
 
-prop('C10', ['Tree', 'TreeCtc', 'Clafer-Ctc2'], naming_matters=False,
+prop('C10', ['Tree', 'TreeCtc', 'Clafer-Ctc2', 'Deep-Ctc'], naming_matters=False,
      assumptions=['the .exp precedence is not < and < or < -> < <->, binary connectives left-associative',
                   'SXFM identifiers may be bare words or double-quoted strings'],
      trusted=['harness/parse_export.py (syntax of SXFM and .exp only)'])(export_script(['splot', 'pl']))
-prop('C11', ['Clafer-Tree', 'Clafer-Ctc', 'Clafer-Ctc2', 'Clafer-Attr'], name_classes=('space', 'punct', 'opword'), naming_matters=True,
+prop('C11', ['Clafer-Tree', 'Clafer-Ctc', 'Clafer-Ctc2', 'Deep-Ctc', 'Clafer-Attr'], name_classes=('space', 'punct', 'opword', 'dot'), naming_matters=True,
      attr_names_too=True,
      assumptions=['both ! and not are accepted as Clafer negation', 'identifiers may be bare words or double-quoted strings'],
      trusted=['harness/parse_export.py (syntax of the Clafer subset only)'])(export_script(['clafer']))
@@ -558,11 +560,15 @@ def ctc_tags(c):
     for f in c['model']['feats']:
         for a in f['attrs']:
             tags.add('attrval:' + a['val'].split(':')[0])
+            if a['val'].startswith('i:-'):
+                tags.add('attrval:negint')
+            if a['val'].startswith('d:') and len(a['val'].split('.')[-1]) > 6:
+                tags.add('attrval:longdec')
     return tags
 
 
 UVL_WANTED = ['typed', 'fcard', 'star', 'abstract', 'cardinality', 'mutex', 'alternative', 'or', 'mandatory', 'optional',
-              'multi-rel-parent', 'attrval:n', 'attrval:b', 'attrval:i', 'attrval:d', 'attrval:s', 'attrval:l', 'attrval:m',
+              'multi-rel-parent', 'attrval:n', 'attrval:b', 'attrval:i', 'attrval:negint', 'attrval:longdec', 'attrval:d', 'attrval:s', 'attrval:l', 'attrval:m',
               'op:NOT', 'op:AND', 'op:OR', 'op:IMPLIES', 'op:EQUIVALENCE', 'op:EQUALS', 'op:LOWER', 'op:GREATER',
               'op:LOWER_EQUALS', 'op:GREATER_EQUALS', 'op:NOT_EQUALS', 'op:ADD', 'op:SUB', 'op:MUL', 'op:DIV', 'op:SUM', 'op:AVG']
 
